@@ -21,6 +21,8 @@ type c06Case struct {
 	Seed       int64
 	// StallMs: the client stops reading for this long while the host keeps sending, then resumes
 	StallMs int
+	// Coalesce: this many consecutive client packets travel in one websocket message / HTTP chunk
+	Coalesce int
 }
 
 type piece struct {
@@ -31,7 +33,7 @@ type piece struct {
 func CheckC06(l *Lab, verifDir string) int {
 	rep := NewReport("C06", l.Tier, l.Seed, "exploration", verifDir)
 	rep.Rule = "tunnels with an open channel through the real (race-instrumented) binary: generator-keyed byte streams of lengths {0,1,4085,4086,4087,4096,8192,65535,1MiB,(4MiB)} and PRNG lengths in both directions at once, client packet payload sizes around the buffer boundaries and PRNG sizes, packets whose length field is shorter or longer than the bytes carried, backend write sizes 1..64KiB, PRNG pacing and delay points at forward.beforeWrite / tunnel.write / process.afterRead, both transports. Oracle: bytes at the host == concatenation of declared payloads (short-carried packets may contribute their carried bytes or nothing, never invented bytes); DATA packets at the client are well-formed and their payloads equal the host's stream. non-trivial = at least one byte relayed; distinct = transport x length class x packetisation class x lie class x pacing"
-	rep.Assume("legacy: every packet travels in its own chunk and TCP write here (segmentation is C08's variable)")
+	rep.Assume("every packet travels in its own message / chunk and TCP write here, except the cases that put 2-100 whole packets into one (arbitrary segmentation is C08's variable)")
 	points := "forward.beforeWrite=20:300,tunnel.write=10:200,process.afterRead=10:200"
 	f, err := l.NewFixture(FixtureOpts{Kind: "ntlm", Race: true, Points: points})
 	if err != nil {
@@ -66,6 +68,13 @@ func CheckC06(l *Lab, verifDir string) int {
 	// a client that stops reading for a while (longer than any write timeout someone may add)
 	for _, tr := range Transports() {
 		add(c06Case{Transport: tr, LenC: 50000, LenH: 24 << 20, PktSizes: []int{4096}, HostSegs: []int{65536}, StallMs: l.Pick(6500, 12000)})
+	}
+	// several whole packets in one websocket message / chunk (messages of up to ~200 KiB)
+	for _, tr := range Transports() {
+		add(c06Case{Transport: tr, LenC: 3 * 65535, LenH: 1000, PktSizes: []int{65535}, HostSegs: []int{500}, Coalesce: 3})
+		add(c06Case{Transport: tr, LenC: 120000, LenH: 1000, PktSizes: []int{40000}, HostSegs: []int{500}, Coalesce: 2})
+		add(c06Case{Transport: tr, LenC: 150000, LenH: 70000, PktSizes: []int{1000}, HostSegs: []int{4086}, Coalesce: 100})
+		add(c06Case{Transport: tr, LenC: 90000, LenH: 0, PktSizes: []int{0}, HostSegs: []int{1}, Coalesce: 7})
 	}
 	// lies about the payload length
 	for i := 0; i < l.Pick(12, 120); i++ {
@@ -188,6 +197,17 @@ func c06One(rep *Report, f *Fixture, c c06Case) {
 	wg.Add(2)
 	go func() {
 		defer wg.Done()
+		if c.Coalesce > 1 {
+			var grouped [][]byte
+			for i := 0; i < len(pkts); i += c.Coalesce {
+				var g []byte
+				for _, p := range pkts[i:MinInt(i+c.Coalesce, len(pkts))] {
+					g = append(g, p...)
+				}
+				grouped = append(grouped, g)
+			}
+			pkts = grouped
+		}
 		for i, p := range pkts {
 			if err := ch.T.Send(p); err != nil {
 				return
@@ -264,6 +284,9 @@ func c06One(rep *Report, f *Fixture, c c06Case) {
 	} else if len(payload) != len(streamH) {
 		if toH && f.GW.Alive() && !snap.OutEnded {
 			rep.Violate("C06/host-to-client-incomplete/"+c.Transport, fmt.Sprintf("client received %d of %d bytes and nothing more for %v although the tunnel stayed open", len(payload), len(streamH), W), detail)
+		} else if c.Lie == "" && f.GW.Alive() && snap.OutEnded {
+			// every packet of this case is well-formed and neither the client nor the host hung up
+			rep.Violate("C06/tunnel-ended-during-well-formed-traffic/"+c.Transport, fmt.Sprintf("the gateway ended the tunnel after %d of %d host->client bytes although client and host only exchanged well-formed traffic", len(payload), len(streamH)), detail)
 		} else {
 			rep.Inconclusive(fmt.Sprintf("host->client incomplete (%d/%d) but tunnel ended=%v", len(payload), len(streamH), snap.OutEnded))
 		}
@@ -274,6 +297,8 @@ func c06One(rep *Report, f *Fixture, c c06Case) {
 	} else if toC && len(recvC) < mustLen {
 		if f.GW.Alive() && !snap.OutEnded {
 			rep.Violate("C06/client-to-host-incomplete/"+c.Transport, fmt.Sprintf("host received %d bytes of at least %d declared and nothing more for %v", len(recvC), mustLen, W), detail)
+		} else if c.Lie == "" && f.GW.Alive() {
+			rep.Violate("C06/tunnel-ended-during-well-formed-traffic/"+c.Transport, fmt.Sprintf("the gateway ended the tunnel after relaying %d of %d client->host bytes although client and host only exchanged well-formed traffic", len(recvC), mustLen), detail)
 		} else {
 			rep.Inconclusive("client->host incomplete, tunnel ended")
 		}
